@@ -33,7 +33,7 @@ def _job(args):
         lim = Limits()
         if tier == "thorough":
             lim.solve_ms = 120000
-            lim.max_secs = 3000
+            lim.max_secs = 12000
         w = World(REPO, [VERIF])
         cs = ContractSet(w, modnames)
         if kind == "contract":
